@@ -1141,7 +1141,7 @@ def coqchk(ctx: Ctx) -> None:
         ctx.extra["coqchk_tail"] = out[-1500:]
 
 
-def run(ctx: Ctx) -> None:
+def _run_main(ctx: Ctx) -> None:
     rng = ctx.rng
     ctx.rule = ("documents: 0-5 dependency objects (names from a pool of 4 so names collide, versions from {1, 1.0, "
                 "1.9, 1.10, 1.10.0, 01.2, 2, 0.0.1}; url / package / no source; 0-2 meta, stylesheet, script dicts "
@@ -1191,6 +1191,15 @@ def run(ctx: Ctx) -> None:
     check_groups(ctx, groups, histories)
 
     check_head_content(ctx, rng, ctx.budget(400, 5000))
+
+
+def run(ctx: Ctx) -> None:
+    """C11's own steps, then the dependency-markup bridge (coq/Properties/C11_deptags.v: what a
+    dependency's as_dict / as_html_tags contribute, at the level of tags and attributes)."""
+    _run_main(ctx)
+    from . import deptags
+    deptags.prove_dep_theorems(ctx)
+    deptags.check_dep_markup(ctx)
 
 
 def replay(ctx: Ctx, path: str) -> None:
